@@ -1,7 +1,8 @@
 SPECIFICATION SSpec
 CONSTANTS
-  Members = {"p", "q"}
-  Vals = {1, 2}
+  Members = {"p", "q", "r"}
+  Vals = {1, 2, 3}
+  HwMax = 2
 INVARIANT TypeOK
 INVARIANT Agree
 PROPERTY WriteLands
